@@ -45,6 +45,11 @@ SEEDS = [
 INSERTS = [b'\x00', b'\xe9', b'\xff\xfe', b'\r', b'"', b'(', b')', b'{', b'}', b'\\', b'&', b'*', b'%', b' ', b'[', b']', b'<', b'~', b'+', b'{5}',
            b'{0+}\r\n', b'{3+}\r\nab']
 SPECIAL = [
+    # depths at which parsing still succeeds but evaluation needs more stack; a header name that is not ASCII
+    b'a SEARCH CHARSET UTF-8 HEADER {2+}\r\n\xc3\xa9 x', b'a SEARCH HEADER "\xc3\xa9" x',
+    *[b'a SEARCH ' + b'OR ALL ' * n + b'ALL' for n in (200, 400, 480, 493, 496, 520, 700)],
+    *[b'a SEARCH ' + b'NOT (' * n + b'ALL' + b')' * n for n in (100, 200, 240, 247, 250, 300)],
+    *[b'a SEARCH ' + b'(' * n + b'ALL' + b')' * n for n in (100, 200, 300, 400, 480)],
     b'', b' ', b'a', b'* x', b'a ' + b'A' * 60000, b'a LOGIN ' + b'(' * 20000, b'a SEARCH ' + b'NOT ' * 15000 + b'ALL',
     b'a SEARCH ' + b'(' * 5000 + b'ALL' + b')' * 5000, b'a SEARCH ' + b'OR ' * 5000 + b'ALL ' * 5001, b'a FETCH 1 (' + b'(' * 5000,
     b'a SELECT {' + b'9' * 5000 + b'}', b'a SELECT {' + b'9' * 5000 + b'+}', b'a FETCH ' + b'9' * 5000 + b' FLAGS', b'a FETCH 1:' + b'9' * 5000 + b' FLAGS',
@@ -325,6 +330,9 @@ def messages(tier):
     out.append(('refs-long', b'Message-Id: <z@x>\r\nReferences: ' + b' '.join(b'<%d@x>' % i for i in range(3000)) + b'\r\n\r\nx'))
     out.append(('date-variants', b'Date: Thu, 32 Foo 20200 99:99:99 +9999\r\n\r\nx'))
     out.append(('date-tz', b'Date: 1 Jan 2020 00:00:00 -0000\r\n\r\nx'))
+    for n in (300, 900, 1200, 5000):
+        out.append((f'subject-re-x{n}', b'Subject: ' + b're: ' * n + b'x\r\n\r\nx'))
+        out.append((f'subject-tags-x{n}', b'Subject: ' + b'[t] fwd: ' * n + b'x\r\n\r\nx'))
     out.append(('huge-header', b'Subject: ' + b'x' * 200000 + b'\r\n\r\nx'))
     out.append(('many-headers', b''.join(b'X-%d: v\r\n' % i for i in range(5000)) + b'\r\nx'))
     out.append(('deep-multipart', _deep(60)))
